@@ -107,6 +107,7 @@ def events_for(w: World) -> List[Tuple]:
     ranks = sorted({0, n - 1}) if n else []
     for r in ranks:
         ev.append(("gate", r))
+        ev.append(("reset", r))
         ev.append(("meas_inplace", r))
         ev.append(("measure", r))
         ev.append(("free", r))
@@ -128,6 +129,8 @@ def apply(w: World, ev: Tuple) -> None:
         w.live.append(Qubit(conn))
     elif k == "gate":
         w.live[ev[1]].H()
+    elif k == "reset":
+        w.live[ev[1]].reset()          # back to |0>: the qubit stays allocated under the same virtual ID
     elif k == "cnot":
         a, b = w.live[ev[1]], w.live[ev[2]]
         if w.config in ("nv+transpiler", "transpiler-only") and a.qubit_id != 0 and b.qubit_id != 0 and all(q.qubit_id != 0 for q in w.live):
@@ -325,7 +328,7 @@ def _blame(history, i) -> str:
     pri = ["create_context_seq", "recv_context_seq", "create_context", "recv_context", "create_seq_post", "recv_seq_post",
            "create_dep_seq_post", "recv_dep_seq_post", "free",
            "create_keep_seq", "recv_keep_seq", "create_keep", "recv_keep", "cnot",
-           "measure", "meas_inplace", "new", "gate"]
+           "measure", "meas_inplace", "new", "reset", "gate"]
     for p in pri:
         if p in kinds:
             return p
@@ -482,7 +485,7 @@ def run(ctx):
     ctx.require("coexist-agrees", 8)
     ctx.exhaustive = True
     ctx.total["samples"].append({"budget": 3, "config": "nv", "history": [["new"], ["create_keep", 1], ["flush"], ["measure", 0], ["flush"]]})
-    for k in ("flush", "new", "gate", "cnot", "meas_inplace", "measure", "free", "create_keep", "recv_keep", "create_seq_post",
+    for k in ("flush", "new", "gate", "reset", "cnot", "meas_inplace", "measure", "free", "create_keep", "recv_keep", "create_seq_post",
               "recv_seq_post", "create_context", "recv_context", "create_context_seq", "recv_context_seq", "create_keep_seq",
               "recv_keep_seq"):
         ctx.require(f"event/{k}", 1)
